@@ -25,6 +25,8 @@ def worker(job):
     seed, kw = job
     rng = random.Random(seed)
     case = gen.gen_case(rng, pi_method="gaussian", outlier=False, estimands=["turnout"], features=[], fixed_effects={}, **kw)
+    if seed % 2 == 0:
+        case["params"]["model_parameters"]["winsorize"] = True       # the size rule must not depend on how the scale is estimated
     run_impl._imp()
     import numpy as np
     from scipy import stats
